@@ -99,3 +99,9 @@ func init() {
 		Quick:    tierCfg{Shards: 16, Checks: 150, Procs: mixedProcs, TimeoutS: 900, ReplayRepeat: 30},
 		Thorough: tierCfg{Shards: 16, Checks: 3000, Procs: mixedProcs, TimeoutS: 5400, ReplayRepeat: 100}}
 }
+
+func init() {
+	specs["C04"] = propSpec{Level: "exploration",
+		Quick:    tierCfg{Shards: 16, Checks: 200, Procs: mixedProcs, TimeoutS: 900, ReplayRepeat: 30},
+		Thorough: tierCfg{Shards: 16, Checks: 4000, Procs: mixedProcs, TimeoutS: 5400, ReplayRepeat: 100}}
+}
